@@ -215,7 +215,7 @@ impl Prop for C03 {
                         9 => "SAVE \"F\"".to_string(),
                         10 => "LOAD \"F\"".to_string(),
                         11 => "RUN \"F\"".to_string(),
-                        12 => "INPUT A,B$,C%".to_string(),
+                        12 => rng.pick(&["INPUT A,B$,C%", "INPUT A$", "INPUT A,B$", "INPUT \"p\";X$(1)", "INPUT ,A$,B$", "INPUT C%,D#,E$"]).to_string(),
                         13 => "A$=INKEY$:PRINT A$".to_string(),
                         14 => format!("RUN {}", rng.range(0, 300)),
                         _ => "PRINT DATE$;TIME$;RND(1);1/0;-32768\\-1;ABS(-32768%)".to_string(),
@@ -261,7 +261,7 @@ impl Prop for C03 {
                             0 => "1,2,3".to_string(),
                             1 => "\"a,b\",\"".to_string(),
                             2 => String::new(),
-                            6 => rng.pick(&["\"", "\"\"", "\"\"\"", " \" ", "a,\"", "\",b", "1,\",3", "\"é", "é\"", ",", ",,", " , , "]).to_string(),
+                            6 => rng.pick(&["\"", "\"\"", "\"\"\"", " \" ", "a,\"", "\",b", "1,\",3", "\"é", "é\"", ",", ",,", " , , ", "1,\"", "1,2,\"", "x, \" ", "1,2,\"\""]).to_string(),
                             7 => format!("{},{},{}", rng.pick(&["\"", "1", "x", ""]), rng.pick(&["\"", "\"\"", "2", " "]), rng.pick(&["\"", "3", "\"z\"", "&HD"])),
                             3 => soup(rng),
                             4 => long_line(rng),
